@@ -4,12 +4,14 @@
 //!        simlab --replay <file>
 
 mod core;
+mod lowprops;
 mod mclass;
 mod refsim;
 mod runner;
 mod sclass;
 mod sprops;
 
+use lowprops::*;
 use mclass::*;
 use runner::*;
 use sprops::*;
@@ -124,6 +126,15 @@ fn rule_for(prop: &str) -> &'static str {
         "C09" => "class-S cases biased to keyed events and cancellations; non-trivial = a cancellation that took effect in the same time slice as the target's deadline, or a periodic series cancelled after >=1 occurrence; distinct = hash of the JSON case",
         "C10" => "periodic series (t0,p) with commensurable periods, two generated partitions of the horizon, closed-form t0+k*p oracle + partition independence + RefSim; non-trivial = >=3 instants where >=2 series coincide, or >=50 occurrences, or a step_until boundary exactly on an occurrence; distinct = hash of the JSON case",
         "C18" => "class-S cases with a recording scripted clock (Synchronized / OutOfSync(lag) answers, tolerance none/0/tau); non-trivial = >=3 time-advancing steps AND a step_until final jump AND a lag answer on a step that has model work; distinct = hash of the JSON case",
+        "C02" => "class-M cases: proptest-generated acyclic model graphs (2-6 scripted models, mailbox capacities 1-16, plain/map/filter_map connections, sub-models, init traffic) driven by process_event/process_query/process(action)/schedule+step; oracle = completed-knowledge vector clocks carried by every message (DESIGN Appendix B); non-trivial = a recipient processed two messages of different senders ordered through a chain AND a port operation was observed suspended (records of other models between its start and its end); distinct = hash of the JSON case",
+        "C03" => "class-M cases; oracle = per-command multiset of handler invocations (model, kind, id, via, script, ttl) and sink contents == sequential expansion of the injected messages, both directions; non-trivial = a broadcast with >=2 accepting and >=1 filtering connections AND a suspended port operation; distinct = hash of the JSON case",
+        "C04" => "class-M cases on ST (LIFO/FIFO/random picks) and MT (4, 8, 16 workers, seeded delays at executor protocol points); oracle = at every Ok return each begun handler has ended, handler/sink multisets == expansion (hence identical across executors), acyclic benches never stall; non-trivial = >=3 models active in one command AND a suspended port operation (MT: AND >=2 worker threads ran handlers); distinct = hash of the JSON case",
+        "C05" => "class-M cases; oracle = per-model busy flag (swap at handler entry) and strict Begin/Op/End nesting of every model's records in the global stamp order, init included; non-trivial = a model ran >=2 handlers in one command AND (a suspended operation OR handlers of that model on >=2 threads); distinct = hash of the JSON case",
+        "C06" => "class-M cyclic cases (loops, self queries, orphan mailboxes, sub-models) kicked off by process_* and by init, plus acyclic cases that must never report a stall; oracle = mailbox accounting at quiescence: queued(X) = min(capacity(X), started sends to X - handlers begun by X), Deadlock must list exactly the simulation's models with queued>0 by qualified name and size, MessageLoss(n) only when all n sit in orphan mailboxes, Ok iff nothing is queued; non-trivial = the run ended in Deadlock/MessageLoss, or completed with >=3 active models and a suspended operation; distinct = hash of the JSON case",
+        "C14" => "class-M cases with 0-6 repliers per requestor (plain/map/filter_map) and with connections added between commands through detached clones of the models' output ports; oracle = reply list of every query == (replier, reply id computed from the mapped request, via) in connection order, process_query reply, and handler multisets that include deliveries through clone-added connections; non-trivial = a query with >=2 repliers and >=1 filtered out, or a clone-added connection in a case with >2 handlers; distinct = hash of the JSON case",
+        "C16" => "class-M hierarchical cases (sub-models to depth 3+, empty names, init scripts that send events and queries); oracle = exactly one init per model during SimInit::init, before any message of that model, never later; messages sent before the recipient's init are in the expansion multiset; Context::name()/error reports use parent.child; non-trivial = sub-models present AND an init that sends to another model; distinct = hash of the JSON case",
+        "C17" => "c17-sink-api: generated write/read/drain/open/close sequences (1-80 ops, 3 writer clones, capacities 1-39) on EventBuffer and EventSlot against a VecDeque/Option model; non-trivial = buffer overflowed (and capacity>1 or a write while closed) / slot overwritten then read then empty. c17-sim: class-M cases, sink content per (model, output) must be in sending order; non-trivial = a sink holds >=2 sends of one output; distinct = hash of the JSON case",
+        "C20" => "generated insert/pull/peek/extract sequences (1-400 ops, key alphabet 0..3 plus random keys) on the real PriorityQueue and IndexedPriorityQueue sources (compiled in with #[path]) against a linear reference (smallest key, then first inserted; extract only through the key issued for that entry); non-trivial = >=2 insertions of an already resident key AND (indexed) a stale key whose slab slot has been reused by a live entry / (plain) the queue ran empty; distinct = hash of the JSON case",
         _ => "see DESIGN.md",
     }
 }
@@ -152,6 +163,14 @@ fn run_property(prop: &'static str, tier: &str, seed: u64) -> i32 {
                 ctx.run(&s, n, w);
             }
             core::set_delay_mode(0, seed);
+            if prop == "C17" {
+                let n = ctx.n(80_000, 2_000_000);
+                ctx.run(&SinkSub, n, 16);
+            }
+        }
+        "C20" => {
+            let n = ctx.n(150_000, 4_000_000);
+            ctx.run(&PqSub, n, 16);
         }
         _ => {
             eprintln!("unknown property {}", prop);
@@ -188,8 +207,8 @@ fn replay(path: &str) -> i32 {
     let prop = v["property"].as_str().unwrap_or("").to_string();
     let sub = v["sub"].as_str().unwrap_or("").to_string();
     let case = &v["case"];
-    let props: [&'static str; 14] = [
-        "C01", "C07", "C08", "C09", "C10", "C18", "C02", "C03", "C04", "C05", "C06", "C14", "C16", "C17",
+    let props: [&'static str; 15] = [
+        "C01", "C07", "C08", "C09", "C10", "C18", "C02", "C03", "C04", "C05", "C06", "C14", "C16", "C17", "C20",
     ];
     core::set_delay_mode(1, 1);
     for p in props {
@@ -205,6 +224,12 @@ fn replay(path: &str) -> i32 {
             if s.name == sub {
                 return replay_one(&s, p, case, path);
             }
+        }
+        if sub == "c17-sink-api" {
+            return replay_one(&SinkSub, p, case, path);
+        }
+        if sub == "c20-queues" {
+            return replay_one(&PqSub, p, case, path);
         }
         if sub == "c10-partitions-st" {
             return replay_one(&C10Sub { mt: None }, p, case, path);
